@@ -164,7 +164,9 @@ func runDesc(sc M) {
 			pt := projectTime(in)
 			t := d.Time
 			if int(t.Year) != pt.Year || int(t.Month) != pt.Month || int(t.Day) != pt.Day || int(t.Hour) != pt.Hour || int(t.Minute) != pt.Minute || int(t.Second) != pt.Second ||
-				int(t.Pad1) != pt.Pad1 || int(t.Nanosecond) != pt.Nanosecond || int(t.TimeZone) != pt.TimeZone || int(t.Daylight) != pt.Daylight || int(t.Pad2) != pt.Pad2 {
+				int(t.Nanosecond) != pt.Nanosecond || int(t.TimeZone) != pt.TimeZone || int(t.Daylight) != pt.Daylight {
+				// (the two reserved bytes of EFI_TIME are not named here - the harness must build against a tree that names them differently;
+				// they are covered by the byte-for-byte comparison of the re-encoded value with the consumed bytes below)
 				fail("%s: timestamp decoded as %+v, bytes say %+v", tag, t, pt)
 			}
 			h := d.AuthInfo.Header
